@@ -179,6 +179,9 @@ def gammastd(x, nodata, cal_start, cal_stop, a=0, b=0):
         if val >= 0:
             n_valid += 1
 
+    if n_valid == 0:
+        return np.full_like(x, nodata, dtype="float64")
+
     p_zero = n_zero / n_valid
 
     if p_zero > 0.9:
@@ -242,7 +245,8 @@ def gammastd_yxt(
                 for ti in range(t):
                     if s[ti] == nodata:
                         continue
-                    s[ti] = s[ti] * 1000
+                    # saturate instead of wrapping in the int16 output
+                    s[ti] = min(max(s[ti] * 1000, -32768.0), 32767.0)
                 np.round(s, 0, s)
                 y[ri, ci, :] = s[:]
 
@@ -281,7 +285,8 @@ def gammastd_grp(xx, groups, num_groups, nodata, cal_indices, yy):
         res = gammastd(pix, nodata, cal_start, cal_stop)
         if (res != nodata).sum() > 0:
             valid_ix = res != nodata
-            res[valid_ix] = res[valid_ix] * 1000
+            # saturate instead of wrapping in the int16 output
+            res[valid_ix] = np.clip(res[valid_ix] * 1000, -32768.0, 32767.0)
             np.round(res, 0, res)
         yy[grp_ix] = res[:]
 
